@@ -106,6 +106,52 @@ def public_rel(a0: bool, a1: bool, a2: bool, b0: bool, b1: bool, b2: bool, wl: b
     return _recorded_ok(r, fb, not want)
 
 
+LAZY = [lambda: map(lambda v: v * v, [1, 2, 3]), lambda: filter(None, [0, 1, 4, 9]), lambda: zip([1, 4], [9, 16]),
+        lambda: (v * v for v in [1, 2, 3]), lambda: reversed([9, 4, 1]), lambda: enumerate([1, 4, 9]),
+        lambda: iter([1, 4, 9]), lambda: range(1, 10, 4)]
+LAZY_EXPECT = [[1, 4, 9], [(1, 9), (4, 16)], [(0, 1), (1, 4), (2, 9)], [1, 5, 9], []]
+
+
+def public_lazy(k0: bool, k1: bool, k2: bool, e0: bool, e1: bool, e2: bool, wrapped: bool, negated: bool,
+                expected_first: bool) -> bool:
+    """
+    One-shot lazy results (map / filter / zip / generator / reversed / enumerate / iterator / range) as an operand of
+    assert_equal / assert_not_equal, raw or proxied, on either side: the verdict is the same whether the operand is proxied
+    or not (building the message must not use the iterator up), and for map / filter / zip / reversed / enumerate / range
+    it is the relation between the ITEMS and the expected list.
+
+    pre: True
+    post: _
+    """
+    if tick():
+        return True
+    k, e = bits(k0, k1, k2), bits(e0, e1, e2)
+    if e >= len(LAZY_EXPECT):
+        return True
+    wrapped, negated, expected_first = (True if wrapped else False), (True if negated else False), (True if expected_first else False)
+    with NoTracing():
+        items = list(LAZY[k]())
+        expected = LAZY_EXPECT[e]
+        cls = R.assert_not_equal if negated else R.assert_equal
+
+        def verdict(operand):
+            r = Report()
+            fb = cls(expected, operand, report=r) if expected_first else cls(operand, expected, report=r)
+            return r, fb
+
+        r_raw, fb_raw = verdict(LAZY[k]())
+        if not wrapped:
+            r_used, fb_used = r_raw, fb_raw
+        else:
+            r_used, fb_used = verdict(proxied(LAZY[k]()))
+        if bool(fb_used) != bool(fb_raw):          # plain versus proxied: the same verdict
+            return False
+        if k in (0, 1, 2, 4, 5, 7):                # the lazy builtins pedal documents as compared by their items
+            holds = items == expected
+            return _recorded_ok(r_used, fb_used, holds if negated else not holds)
+        return _recorded_ok(r_used, fb_used, bool(fb_raw))
+
+
 ONE_SIDED = [
     ("true", R.assert_true, lambda v: bool(v)),
     ("false", R.assert_false, lambda v: not bool(v)),
